@@ -1075,6 +1075,15 @@ example : ∃ limit g, readEvents classifyLine limit (fileAfter ets [] (runCmd [
     replay (runCmd [] envA reqA).log = .ok g ∧ Inv14 g := by
   obtain ⟨l, h⟩ := one_step_on_disk
   exact ⟨l, C14_inv_holds_of_the_bytes_on_disk h⟩
+example : ∃ limit g, readEvents classifyLine limit (fileAfter ets [] (runCmd [] envA reqA).write) = .ok (runCmd [] envA reqA).log ∧
+    replay (runCmd [] envA reqA).log = .ok g ∧ WF g := by
+  obtain ⟨l, h⟩ := one_step_on_disk
+  exact ⟨l, C08_applies_to_the_bytes_on_disk h⟩
+example : ∃ limit g, readEvents classifyLine limit (fileAfter ets [] (runCmd [] envA reqA).write) = .ok (runCmd [] envA reqA).log ∧
+    replay (runCmd [] envA reqA).log = .ok g ∧ ((Render.rows g .all).map (·.id)).Perm (g.tasks.map (·.id)) := by
+  obtain ⟨l, h⟩ := one_step_on_disk
+  obtain ⟨g, h1, h2, h3, _⟩ := C19_list_of_the_bytes_on_disk_is_complete h
+  exact ⟨l, g, h1, h2, h3⟩
 
 /-! ### the byte-level process system: one of ergo's own commands (`claim`) as a writer on the JSON file of the demo history -/
 section BytesRun
